@@ -73,3 +73,85 @@ func concurrently(n, g int, sd int64, f func(worker, i int)) {
 	}
 	wg.Wait()
 }
+
+// ---- list layouts ----
+//
+// What a list means does not depend on how it is stored: in memory or in a file, with or without a line break after
+// its last line.  Every replay that builds a storage from rule texts goes through layoutStorage, which cycles through
+// these layouts, so that each property's cases also run over file-backed lists and unterminated last lines.
+
+var (
+	layoutCounter int
+	layoutRing    []func()
+	layoutMu      sync.Mutex
+)
+
+// layoutStorage builds a storage of the given texts (one per list) under the given list ids, in the next layout.
+func layoutStorage(texts []string, ids []int) (*filterlist.RuleStorage, error) {
+	layoutMu.Lock()
+	defer layoutMu.Unlock()
+	layoutCounter++
+	// of 12 consecutive storages: 8 in memory, 2 in memory without a final line break, 1 in files, 1 in files without
+	// a final line break (variant: 0..2 memory, 3 memory/unterminated, 4 files, 5 files/unterminated)
+	variant := []int{0, 1, 2, 3, 0, 4, 1, 3, 2, 0, 1, 5}[layoutCounter%12]
+	var ls []filterlist.RuleList
+	var cleanup func()
+	if variant >= 4 {
+		dir, err := os.MkdirTemp("", "vh-layout-")
+		if err != nil {
+			return nil, err
+		}
+		cleanup = func() { _ = os.RemoveAll(dir) }
+		for i, t := range texts {
+			t = strings.TrimSuffix(t, "\n")
+			if variant == 4 {
+				t += "\n"
+			}
+			p := filepath.Join(dir, "l"+strconv.Itoa(i)+".txt")
+			if err = os.WriteFile(p, []byte(t), 0o600); err != nil {
+				cleanup()
+				return nil, err
+			}
+			fl, err := filterlist.NewFileRuleList(ids[i%len(ids)], p, false)
+			if err != nil {
+				cleanup()
+				return nil, err
+			}
+			ls = append(ls, fl)
+		}
+	} else {
+		for i, t := range texts {
+			t = strings.TrimSuffix(t, "\n")
+			if variant != 3 {
+				t += "\n"
+			}
+			ls = append(ls, &filterlist.StringRuleList{ID: ids[i%len(ids)], RulesText: t})
+		}
+	}
+	st, err := filterlist.NewRuleStorage(ls)
+	if err != nil {
+		if cleanup != nil {
+			cleanup()
+		}
+		return nil, err
+	}
+	if cleanup != nil {
+		// file-backed storages are used right after they are built; the 16th-newest one is closed and removed
+		layoutRing = append(layoutRing, func() { _ = st.Close(); cleanup() })
+		if len(layoutRing) > 16 {
+			layoutRing[0]()
+			layoutRing = layoutRing[1:]
+		}
+	}
+	return st, nil
+}
+
+// layoutCleanup closes what layoutStorage still holds open (called at the end of a command).
+func layoutCleanup() {
+	layoutMu.Lock()
+	defer layoutMu.Unlock()
+	for _, f := range layoutRing {
+		f()
+	}
+	layoutRing = nil
+}
